@@ -1,6 +1,6 @@
 (* C09 — No publisher or subscriber outlives the session, room stay or call that owns it. *)
 From Coq Require Import List NArith Bool.
-From Verif Require Import model.Hub proofs.Hub_media.
+From Verif Require Import model.Hub proofs.Hub_media proofs.Hub_wf proofs.Hub_own.
 Import ListNotations.
 Open Scope N_scope.
 
@@ -35,12 +35,133 @@ Theorem C09_duplicate_publisher_closed : forall h tok p s tok0,
   In (ToMcu (MClose tok)) (snd (finish_create h tok p true)) /\
   h_mcuopen (fst (finish_create h tok p true)) = h_mcuopen h.
 Proof. exact duplicate_publisher_closed. Qed.
-(* C09_owned_or_closed_partial: "at quiescence every open object is owned by a live session" as an
-   invariant over all interleavings of completions is checked on every implementation state by
-   P_C09 (digest_C09: open objects = objects in the sessions' tables) and by the comparison of the
-   model's open set with the fake media server's; it is not proved as an invariant yet. *)
+(* ---- for every history (any limits, gated or not, any ops, step-by-step or quiescent runs) ---- *)
+
+(* Every object open at the media server is in the tables of a live session ... *)
+Theorem C09_open_objects_are_owned : forall limits gated ops h,
+  h = run (init limits gated) ops \/ h = qrun (init limits gated) ops ->
+  forall tok, In tok h.(h_mcuopen) ->
+  exists sid s, get_sess h sid = Some s /\ In tok (map snd s.(s_pubs) ++ map snd s.(s_subs)).
+Proof. intros limits gated ops h R. exact (own_reachable h (reachable_intro limits gated ops h R)). Qed.
+(* ... of exactly one ... *)
+Theorem C09_owner_unique : forall limits gated ops h,
+  h = run (init limits gated) ops \/ h = qrun (init limits gated) ops ->
+  forall tok, In tok h.(h_mcuopen) ->
+  exists sid s, get_sess h sid = Some s /\ In tok (map snd s.(s_pubs) ++ map snd s.(s_subs)) /\
+    forall sid' s', get_sess h sid' = Some s' -> In tok (map snd s'.(s_pubs) ++ map snd s'.(s_subs)) -> sid' = sid.
+Proof. intros limits gated ops h R. exact (owner_unique h (reachable_inv h (reachable_intro limits gated ops h R))). Qed.
+(* ... and conversely every object in a live session's tables is open: open = held. *)
+Theorem C09_held_objects_are_open : forall limits gated ops h,
+  h = run (init limits gated) ops \/ h = qrun (init limits gated) ops ->
+  forall sid s tok, get_sess h sid = Some s -> In tok (map snd s.(s_pubs) ++ map snd s.(s_subs)) -> In tok h.(h_mcuopen).
+Proof. intros limits gated ops h R. exact (held_reachable h (reachable_intro limits gated ops h R)). Qed.
+(* Nothing outlives its owner: an object no live session holds is not open. *)
+Theorem C09_nothing_outlives_owner : forall limits gated ops h,
+  h = run (init limits gated) ops \/ h = qrun (init limits gated) ops ->
+  forall tok,
+  (forall sid s, get_sess h sid = Some s -> ~ In tok (map snd s.(s_pubs) ++ map snd s.(s_subs))) -> ~ In tok h.(h_mcuopen).
+Proof. intros limits gated ops h R. exact (nothing_outlives_owner h (reachable_intro limits gated ops h R)). Qed.
+
+(* No duplicates: no object is open twice; a session has at most one publisher per stream type and
+   one subscriber per (publisher, stream); no object sits in two slots. *)
+Theorem C09_no_duplicates : forall limits gated ops h,
+  h = run (init limits gated) ops \/ h = qrun (init limits gated) ops ->
+  NoDup h.(h_mcuopen) /\
+  (forall sid s, get_sess h sid = Some s ->
+     NoDup (map fst s.(s_pubs)) /\ NoDup (map fst s.(s_subs)) /\ NoDup (map snd s.(s_pubs) ++ map snd s.(s_subs))).
+Proof. intros limits gated ops h R. exact (nodup_reachable h (reachable_intro limits gated ops h R)). Qed.
+Theorem C09_one_publisher_per_stream : forall limits gated ops h,
+  h = run (init limits gated) ops \/ h = qrun (init limits gated) ops ->
+  forall sid s stream t1 t2,
+  get_sess h sid = Some s -> In (stream, t1) s.(s_pubs) -> In (stream, t2) s.(s_pubs) -> t1 = t2.
+Proof. intros limits gated ops h R. exact (one_publisher_per_stream h (reachable_intro limits gated ops h R)). Qed.
+
+(* When a session is closed (alone, or with its virtual sessions), leaves its room or leaves the
+   call, nothing it held stays open (in any state). *)
+Theorem C09_close_session_closes : forall h sid s tok,
+  get_sess h sid = Some s -> In tok (map snd s.(s_pubs) ++ map snd s.(s_subs)) ->
+  ~ In tok (h_mcuopen (fst (close_session h sid))).
+Proof. exact close_session_closes. Qed.
+Theorem C09_close_one_closes : forall h sid s tok,
+  get_sess h sid = Some s -> In tok (map snd s.(s_pubs) ++ map snd s.(s_subs)) ->
+  ~ In tok (h_mcuopen (fst (close_one h sid))).
+Proof. exact close_one_closes. Qed.
+Theorem C09_leave_room_closes : forall h sid n s k tok,
+  get_sess h sid = Some s -> s_room s = Some k -> is_virtual (s_kind s) = false ->
+  In tok (map snd s.(s_pubs) ++ map snd s.(s_subs)) -> ~ In tok (h_mcuopen (fst (leave_room h sid n))).
+Proof. exact leave_room_closes. Qed.
+Theorem C09_leave_call_closes : forall h sid s k tok,
+  get_sess h sid = Some s -> s_room s = Some k -> is_virtual (s_kind s) = false ->
+  In tok (map snd s.(s_pubs) ++ map snd s.(s_subs)) -> ~ In tok (h_mcuopen (fst (leave_call h sid))).
+Proof. exact leave_call_closes. Qed.
+
+(* ... and the media server is told: a close request for each of them is among the outputs. *)
+Theorem C09_close_session_emits_close : forall h sid s tok,
+  get_sess h sid = Some s -> In tok (map snd s.(s_pubs) ++ map snd s.(s_subs)) -> In tok (h_mcuopen h) ->
+  In (ToMcu (MClose tok)) (snd (close_session h sid)).
+Proof. exact close_session_emits_close. Qed.
+Theorem C09_close_one_emits_close : forall h sid s tok,
+  get_sess h sid = Some s -> In tok (map snd s.(s_pubs) ++ map snd s.(s_subs)) -> In tok (h_mcuopen h) ->
+  In (ToMcu (MClose tok)) (snd (close_one h sid)).
+Proof. exact close_one_emits_close. Qed.
+Theorem C09_leave_room_emits_close : forall h sid n s k tok,
+  get_sess h sid = Some s -> s_room s = Some k -> is_virtual (s_kind s) = false ->
+  In tok (map snd s.(s_pubs) ++ map snd s.(s_subs)) -> In tok (h_mcuopen h) ->
+  In (ToMcu (MClose tok)) (snd (leave_room h sid n)).
+Proof. exact leave_room_emits_close. Qed.
+Theorem C09_leave_call_emits_close : forall h sid s k tok,
+  get_sess h sid = Some s -> s_room s = Some k -> is_virtual (s_kind s) = false ->
+  In tok (map snd s.(s_pubs) ++ map snd s.(s_subs)) -> In tok (h_mcuopen h) ->
+  In (ToMcu (MClose tok)) (snd (leave_call h sid)).
+Proof. exact leave_call_emits_close. Qed.
+(* losing the permission: the revocation closes the publisher there too *)
+Theorem C09_revoke_emits_close : forall h sid s stream tok,
+  get_sess h sid = Some s -> In (stream, tok) s.(s_pubs) ->
+  offer_allowed s.(s_perms) stream (match aget s.(s_pubmedia) tok with Some m => m | None => 0 end) = false ->
+  In tok (h_mcuopen h) -> In (ToMcu (MClose tok)) (snd (revoke h sid)).
+Proof. exact revoke_emits_close. Qed.
+
+(* No unowned duplicate: when a creation completes, the media server is told that it failed, or the
+   new object is closed again in the same step, or it is open and in its owner's tables. *)
+Theorem C09_completion_owned_or_closed : forall h tok p ok,
+  let '(h', outs) := finish_create h tok p ok in
+  (exists o1, outs = ToMcu (MFailed tok) :: o1) \/
+  (exists o1, outs = ToMcu (MCreated tok) :: ToMcu (MClose tok) :: o1) \/
+  (exists o1, outs = ToMcu (MCreated tok) :: o1 /\ In tok (h_mcuopen h') /\
+     exists s', get_sess h' (mp_owner p) = Some s' /\ In tok (map snd s'.(s_pubs) ++ map snd s'.(s_subs))).
+Proof. exact completion_owned_or_closed. Qed.
+
+(* The statements are not vacuous: reachable states with an open publisher (media server answering at
+   once, and gated with the completion arriving later), a publisher and a subscriber, and the
+   publisher's object closed when its session says bye. *)
+Example C09_example_open_publisher :
+  ex_view (run (init [0] false) ex_ops) = ([1], [], [(1, [(0, 1)], [], [(1, 3)], None)]) /\
+  ex_view (run (init [0] true) ex_ops) = ([], [1], [(1, [], [], [], None)]) /\
+  ex_view (run (init [0] true) (ex_ops ++ [OMcuDone 1 true])) = ([1], [], [(1, [(0, 1)], [], [(1, 3)], None)]) /\
+  ex_view (qrun (init [0] true) (ex_ops ++ [OMcuDone 1 true])) = ([1], [], [(1, [(0, 1)], [], [(1, 3)], None)]).
+Proof. split; [exact ex_open_publisher_ungated|split; [exact ex_pending_gated|split; [exact ex_open_publisher_gated|exact ex_open_publisher_gated_q]]]. Qed.
+Example C09_example_publisher_and_subscriber :
+  ex_view (qrun (init [0] false) ex_ops2) = ([1; 2], [], [(1, [(0, 1)], [], [(1, 3)], None); (2, [], [(1, 0, 2)], [], None)]) /\
+  ex_view (qrun (init [0] false) (ex_ops2 ++ [OBye 1])) = ([2], [], [(2, [], [(1, 0, 2)], [], None)]).
+Proof. exact ex_publisher_and_subscriber. Qed.
 
 Print Assumptions C09_release_closes_everything.
 Print Assumptions C09_late_creation_is_closed.
 Print Assumptions C09_creation_for_dead_session_fails.
 Print Assumptions C09_duplicate_publisher_closed.
+Print Assumptions C09_open_objects_are_owned.
+Print Assumptions C09_owner_unique.
+Print Assumptions C09_held_objects_are_open.
+Print Assumptions C09_nothing_outlives_owner.
+Print Assumptions C09_no_duplicates.
+Print Assumptions C09_one_publisher_per_stream.
+Print Assumptions C09_close_session_closes.
+Print Assumptions C09_close_one_closes.
+Print Assumptions C09_leave_room_closes.
+Print Assumptions C09_leave_call_closes.
+Print Assumptions C09_completion_owned_or_closed.
+Print Assumptions C09_close_session_emits_close.
+Print Assumptions C09_close_one_emits_close.
+Print Assumptions C09_leave_room_emits_close.
+Print Assumptions C09_leave_call_emits_close.
+Print Assumptions C09_revoke_emits_close.
